@@ -430,8 +430,14 @@ func (p *postHandshake) processPostHandshakeMessages(ctx context.Context, conn C
 
 			return err
 		}
+		sequence := p.state.HandshakeRecvSequence
 		if err := p.handlePostHandshakeMessage(ctx, conn, message, item.Epoch); err != nil {
 			return err
+		}
+		if p.state.HandshakeRecvSequence == sequence {
+			// The handler refused the message (it has sent a fatal alert) and did not
+			// consume it. Pulling it again would loop forever, one alert per round.
+			return dtlserrors.ErrUnexpectedPostHandshakeMessage
 		}
 	}
 
